@@ -293,12 +293,230 @@ def vrh_obligations(s, static):
     s.oblige("C18.unit_constants", constants, ["cij.util.units._to_ang3/_to_ev/_to_gpa/_to_gcm3/_to_kms"], kind="finite")
 
 
+# ----------------------------------------------------------------------------------------------------------------------
+# the EoS / mode / static-table statements of the callback: cut out of main's AST (from the statement that reads the volumes off the table up to, not including, the VRH
+# block), compiled UNCHANGED and executed on recording stubs.  Every value is an expression tree (X); the obligations compare trees: which fit / derivative / interpolation
+# is applied to what, in each of the three modes, with and without static table, crystal system and cell-mass option.  Dropped by the extraction: file reading and the
+# definitions of the two helper closures fit_modulus / v2p1d (recorded as calls; their bodies are exercised by the bounded run), the VRH block (own obligation), sampling, printing.
+class X:
+    """expression tree with structural equality"""
+
+    def __init__(self, op, *args):
+        self.op, self.args = op, args
+
+    def key(self):
+        return (self.op,) + tuple(a.key() if isinstance(a, X) else a for a in self.args)
+
+    def __repr__(self):
+        return "%s(%s)" % (self.op, ", ".join(repr(a) for a in self.args)) if self.args else str(self.op)
+
+    def _b(self, op, o, swap=False):
+        return X(op, o, self) if swap else X(op, self, o)
+
+    def __add__(self, o): return self._b("+", o)
+    def __radd__(self, o): return self._b("+", o, True)
+    def __sub__(self, o): return self._b("-", o)
+    def __rsub__(self, o): return self._b("-", o, True)
+    def __mul__(self, o): return self._b("*", o)
+    def __rmul__(self, o): return self._b("*", o, True)
+    def __truediv__(self, o): return self._b("/", o)
+    def __rtruediv__(self, o): return self._b("/", o, True)
+    def __neg__(self): return X("neg", self)
+    def __call__(self, *a): return X("call", self, *a)
+    def to_numpy(self, *a, **k): return self
+
+    truth = None          # option values that are given are non-zero numbers
+
+    def __bool__(self):
+        if self.truth is not None:
+            return self.truth
+        raise core.OutsideSubset("a branch on the value %r" % (self,))
+
+    @property
+    def T(self):
+        if self.op == "pairs":
+            return (X("first", self), X("second", self))
+        return X("T", self)
+
+    def __iter__(self):
+        raise core.OutsideSubset("iteration over the value %r" % (self,))
+
+
+def given(name):
+    x = X(name)
+    x.truth = True
+    return x
+
+
+def same(a, b):
+    ka = a.key() if isinstance(a, X) else a
+    kb = b.key() if isinstance(b, X) else b
+    return ka == kb
+
+
+def extract_eos_block(static):
+    import ast, inspect
+    tree = ast.parse(open(inspect.getsourcefile(static)).read())
+    main = [n for n in tree.body if isinstance(n, ast.FunctionDef) and n.name == "main"]
+    if len(main) != 1:
+        raise core.OutsideSubset("cli/static.py: function main not found")
+    body = main[0].body
+
+    def assigns(node, col):
+        for a in ast.walk(node):
+            if isinstance(a, ast.Assign):
+                for t in a.targets:
+                    if isinstance(t, ast.Subscript) and col in [c.value for c in ast.walk(t.slice) if isinstance(c, ast.Constant)]:
+                        return True
+        return False
+    first = [i for i, st in enumerate(body) if isinstance(st, ast.Assign) and any(isinstance(t, ast.Name) and t.id == "volumes" for t in st.targets)]
+    last = [i for i, st in enumerate(body) if isinstance(st, ast.If) and assigns(st, "bm_V")]
+    if len(first) != 1 or len(last) != 1 or first[0] >= last[0]:
+        raise core.OutsideSubset("cli/static.py: the EoS / mode statements are not where the extraction expects them (between `volumes = ...` and the VRH block)")
+    stmts = body[first[0]:last[0]]
+    return compile(ast.Module(body=stmts, type_ignores=[]), inspect.getsourcefile(static), "exec"), (stmts[0].lineno, stmts[-1].end_lineno)
+
+
+def run_eos_block(static, interp, table, system, cellmass):
+    import types
+    code, span = extract_eos_block(static)
+    rec = {"span": span, "fit": [], "fill": [], "frames": []}
+
+    class Loc:
+        def __init__(self, df): self.df = df
+
+        def _col(self, k):
+            if not (isinstance(k, tuple) and len(k) == 2 and k[0] == slice(None) and isinstance(k[1], str)):
+                raise core.OutsideSubset("df.loc[%r]" % (k,))
+            return k[1]
+
+        def __getitem__(self, k): return self.df[self._col(k)]
+        def __setitem__(self, k, v): self.df[self._col(k)] = v
+
+    class DF:
+        def __init__(self, cols, length, name):
+            self.cols, self.length, self.name = dict(cols), length, name
+            rec["frames"].append(self)
+        @property
+        def loc(self): return Loc(self)
+        @property
+        def columns(self): return list(self.cols)
+        @property
+        def shape(self): return (self.length, len(self.cols))
+
+        def __getitem__(self, k):
+            if k not in self.cols:
+                raise KeyError(k)
+            return self.cols[k]
+
+        def __setitem__(self, k, v):
+            self.cols[k] = v
+    df0 = DF({"V": X("V_in"), "F": X("F_in")}, X("nv"), "input")
+
+    def DataFrame(index=None, **kw):
+        if kw or not (isinstance(index, X) and index.op == "range"):
+            raise core.OutsideSubset("pandas.DataFrame(%r, %r)" % (index, kw))
+        return DF({}, index.args[0], "grid")
+    keys = [k for k in all_keys() if k.voigt in ((1, 1), (1, 2), (4, 4))]
+    input02 = None
+    if table:
+        input02 = types.SimpleNamespace(cellmass=X("cellmass_table"), volumes=[types.SimpleNamespace(volume=X("Vtab", i), static_elastic_modulus={k: X("tab", "c%d%d" % k.voigt, i) for k in keys})
+                                                                              for i in range(3)])
+
+    def np_array(x):
+        if isinstance(x, list) and x and all(isinstance(t, tuple) and len(t) == 2 for t in x):
+            return X("pairs", tuple(t[0].key() for t in x), tuple(t[1].key() for t in x))
+        raise core.OutsideSubset("numpy.array(%r)" % (x,))
+    npstub = types.SimpleNamespace(linspace=lambda a, b, n: X("linspace", a, b, n), min=lambda a: X("min", a), max=lambda a: X("max", a), gradient=lambda a: X("gradient", a), array=np_array,
+                                   zeros=lambda *a, **k: (_ for _ in ()).throw(core.OutsideSubset("numpy.zeros in the EoS block")))
+
+    def fit_modulus(volumes, v_array, moduli, order=2):
+        rec["fit"].append((volumes, v_array, moduli, order))
+        return X("fit", volumes, v_array, moduli, order)
+
+    def fill_cij(df, system_):
+        rec["fill"].append((df, system_, dict(df.cols)))
+        return df
+    ns = {"numpy": npstub, "pandas": types.SimpleNamespace(DataFrame=DataFrame), "df": df0, "interp": interp, "ntv": X("ntv"), "v_ratio": X("v_ratio"), "p_min": X("p_min"),
+          "delta_p": X("delta_p"), "cellmass": (given("cellmass_opt") if cellmass else None), "system": system, "input02": input02, "fit_modulus": fit_modulus,
+          "v2p1d": lambda x, p_old, p_new: X("v2p1d", x, p_old, p_new), "InterpolatedUnivariateSpline": lambda x, y: X("spline", x, y), "_from_gpa": lambda a: X("from_gpa", a),
+          "fill_cij": fill_cij, "range": lambda n: X("range", n), "logger": types.SimpleNamespace(warning=lambda *a, **k: None, info=lambda *a, **k: None, debug=lambda *a, **k: None)}
+    exec(code, ns)
+    return ns["df"], rec, keys
+
+
+def all_keys():
+    from cij.util import c_
+    return [c_(i, j) for i in range(1, 7) for j in range(i, 7)]
+
+
+def eos_obligation(static):
+    n = 0
+    for interp in ("none", "volume", "pressure"):
+        for table in (False, True):
+            for system in ((None, "cubic") if table else (None,)):
+                for cellmass in (False, True):
+                    n += 1
+                    df, rec, keys = run_eos_block(static, interp, table, system, cellmass)
+                    where = "mode %s, %s table, system %s, cell-mass option %s" % (interp, "with" if table else "without", system, "given" if cellmass else "absent")
+                    vol, F = X("V_in"), X("F_in")
+                    grid = X("linspace", X("min", vol) / X("v_ratio"), X("max", vol) * X("v_ratio"), X("ntv"))
+                    f_fit = X("fit", vol, grid, F, 2)
+                    p_fit = X("neg", X("gradient", f_fit)) / X("gradient", grid)
+                    if interp == "none":
+                        want = {"V": vol, "F": F, "P": X("call", X("spline", grid, p_fit), vol)}
+                        length = X("nv")
+                    elif interp == "volume":
+                        want = {"V": grid, "F": f_fit, "P": p_fit}
+                        length = X("ntv")
+                    else:
+                        pg = X("linspace", X("from_gpa", X("p_min")), X("from_gpa", X("p_min") + X("delta_p") * (X("ntv") - 1)), X("ntv"))
+                        want = {"V": X("v2p1d", grid, p_fit, pg), "F": X("v2p1d", f_fit, p_fit, pg), "P": pg}
+                        length = X("ntv")
+
+                    def bad(msg, wid):
+                        return core.refuted("callsite", "%s: %s" % (where, msg), witness_id="eos:%s:%s" % (interp, wid))
+                    if not same(df.length, length):
+                        return bad("the table has %r rows, specified %r" % (df.length, length), "rows")
+                    cols_now = df.cols if not rec["fill"] else rec["fill"][0][2]
+                    for c, w in want.items():
+                        if c not in cols_now or not same(cols_now[c], w):
+                            return bad("column %s is %r, specified %r" % (c, cols_now.get(c), w), c)
+                    Vrow = want["V"]
+                    if table:
+                        tabV = tuple(X("Vtab", i).key() for i in range(3))
+                        for k in keys:
+                            name = "c%d%d" % k.voigt
+                            tabC = tuple(X("tab", name, i).key() for i in range(3))
+                            got = cols_now.get(name)
+                            ok = isinstance(got, X) and got.op == "fit" and len(got.args) == 4 and same(got.args[1], Vrow) and got.args[3] == 2 and \
+                                isinstance(got.args[0], X) and isinstance(got.args[2], X) and got.args[0].op == "first" and got.args[2].op == "second" and \
+                                same(got.args[0].args[0], got.args[2].args[0]) and got.args[0].args[0].args == (tabV, tabC)
+                            if not ok:
+                                return bad("column %s is %r, specified: the finite-strain fit of the table's (volume, %s) pairs evaluated at the rows' volumes" % (name, got, name), name)
+                    elif any(c.startswith("c") and c[1:].isdigit() for c in cols_now):
+                        return bad("modulus columns without a static table", "spurious")
+                    if (system is not None) != bool(rec["fill"]) or (rec["fill"] and rec["fill"][0][1] != system):
+                        return bad("symmetry filling called %d time(s) with %r" % (len(rec["fill"]), [f[1] for f in rec["fill"]]), "fill")
+                    dens = df.cols.get("density")
+                    want_d = (X("cellmass_opt") / Vrow) if cellmass else ((X("cellmass_table") / Vrow) if table else None)
+                    if (want_d is None) != (dens is None) or (dens is not None and not same(dens, want_d)):
+                        return bad("density column is %r, specified %r (the cell-mass option overrides the table's cell mass)" % (dens, want_d), "density")
+    return core.proved("callsite", "%d combinations of mode x table x crystal system x cell-mass option: V / F / P are the fitted energy, -dF/dV and the requested grid (none: "
+                                   "spline of the fitted pressure at the input volumes; volume: the expanded grid; pressure: v2p of the VOLUME and of the ENERGY onto linspace(p_min, "
+                                   "p_min + delta_p (ntv - 1), ntv)), each modulus column is the fit of the table's own (volume, component) pairs at the rows' volumes, density = "
+                                   "(option or table cell mass) / V, the crystal system is handed to fill_cij exactly when given" % n)
+
+
 def run(s):
     from click.testing import CliRunner
     static = importlib.import_module("cij.cli.static")
     vrh_obligations(s, static)
+    s.oblige("C18.eos_and_table_block(call sites, 18 option combinations)", lambda: eos_obligation(static),
+             ["cli/static.main (EoS, mode and static-table statements, extracted by AST)"], kind="finite",
+             fallback=lambda: {"reproduced": False, "note": "bounded run C18.run_static_table decides"})
     s.assume("A-QHA (least-squares fit, eulerian strain, v2p), A-PANDAS, A-CLICK, scipy spline")
-    s.undecided_part("the finite-strain fits, P = -dF/dV, the three interpolation modes, option handling and printing: bounded run-time contract on the printed table only")
+    s.undecided_part("the numerics behind the recorded calls (finite-strain fit, numpy.gradient, spline, v2p), --delta-p-sample and printing: bounded run-time contract on the printed table only")
     rnd = random.Random(s.seed)
     n = 36 if s.tier == "quick" else 360
     fails, evals, distinct = [], 0, 0
@@ -432,20 +650,26 @@ def run(s):
     s.bounded_standin("C18.run_static_table", "%d synthetic data sets (6-11 volumes listed descending / ascending / shuffled, energies and moduli exactly quadratic in Eulerian strain), "
                       "modes none / volume / pressure in turn, grid sizes 11-401, with/without static table, cubic system option, cell-mass option; seed %d" % (n, s.seed),
                       evals, distinct, fails, ["cli/static.main"])
-    s.min_obligations = 3
+    s.min_obligations = 4
 
 
 MANIFEST = {
     "engine": "symnp", "category": "other",
     "technique": "contract-based deductive verification of the mechanically extracted VRH / unit / velocity statements of the callback (executed unchanged on a "
-                 "symbolic table, z3) + finite check of the unit constants; bounded run-time postcondition on the printed table for the rest",
+                 "symbolic table, z3) and of its EoS / mode / static-table statements (executed unchanged on recording stubs, call-site obligations on expression trees over 18 "
+                 "option combinations) + finite check of the unit constants; bounded run-time postcondition on the printed table for the rest",
     "text": "Proved for every table length and all values: the statements of `main` from the VRH block to the velocity block (extracted by AST from the current "
             "source, nothing rewritten; everything before and after is dropped and stated as such) hand numpy.linalg.inv the symmetric assembly of the "
             "modulus columns (0 where a column is absent), compute bm_V, bm_R, G_V, G_R as C_iijj/9, 1/S_iijj, (3C_ijij-C_iijj)/30, 15/(6S_ijij-2S_iijj) of "
             "that matrix and its inverse with Hill = mean, convert V, F, P and density exactly once with their own converters, leave the modulus columns "
             "untouched, and report v_p, v_s, v_phi = TO_KMS(sqrt(modulus / density[g/cm^3])); the five converters are linear with CODATA / exact-SI "
-            "factors. Bounded: the real command through click's CliRunner on synthetic inputs exactly quadratic in Eulerian strain -- P = -dF_fit/dV, "
+            "factors. The statements between reading the volumes off the table and the VRH block are cut out the same way and run on expression trees for every combination of mode x "
+            "table x crystal system x cell-mass option: F_fit = fit(V_in, grid, F_in), P = -gradient(F_fit)/gradient(grid) on grid = linspace(min V / ratio, max V * ratio, ntv); mode "
+            "none reports a spline of that pressure at the input volumes, mode volume the grid itself, mode pressure v2p of the volume AND of the energy onto linspace(p_min, p_min + "
+            "delta_p (ntv - 1), ntv); every modulus column is the fit of the table's own (volume, component) pairs at the rows' volumes; density = (option, else table cell mass) / V; "
+            "fill_cij is called exactly when a system is given. Bounded: the real command through click's CliRunner on synthetic inputs exactly quadratic in Eulerian strain -- P = -dF_fit/dV, "
             "F = F_fit(V), units, the three modes, moduli = fit of the table at the row's volume, VRH and velocities, system and cell-mass options.",
     "note": "A-NUMPY (linalg.inv = matrix inverse; zeros / slice assignment as modelled, cross-checked against real numpy), Reuss<=Hill<=Voigt is C07's Lean "
-            "lemma on the same formulas. bounded: 6 (quick) / 120 (thorough) data sets; never counted as discharged.",
+            "lemma on the same formulas. The helper closures fit_modulus / v2p1d, the spline, sampling and printing are recorded calls / bounded only. bounded: 36 (quick) / 360 (thorough) runs "
+            "in a covering design of the options; never counted as discharged.",
 }
